@@ -225,8 +225,30 @@ Theorem C01_any_implementor_exact : forall m gs A L op c,
   derive_vm m gs L op = Val (Ok c) -> fits_vm A L op /\ c = child_vm A L op.
 Proof. exact C01Impl.any_implementor_exact_lemma. Qed.
 
-(* the model of the provided methods over the three stand-in implementors of the harness (count
-   clamped / rest of the memory / one byte short) satisfies the checker on every case *)
+(* a memory that is logically L bytes but physically chunks of cc bytes separated by gaps of gg
+   bytes that do not belong to it (get_slice answers the part of the request inside the chunk of
+   its first byte, C01impl.chunk_gs): whatever a provided method hands out lies inside ONE chunk
+   (chunk j occupies [A + j*(cc+gg), A + j*(cc+gg) + min(cc, L - j*cc))) - never in a gap, never
+   across two chunks - for all sizes, offsets, counts, element types *)
+Theorem C01_chunked_implementor_in_chunk : forall m A L cc gg op c, 1 <= cc -> op_wf op ->
+  derive_vm m (C01impl.chunk_gs A L cc gg) L op = Val (Ok c) ->
+  exists j, A + j * (cc + gg) <= acc_base c /\
+            acc_base c + acc_len c <= A + j * (cc + gg) + N.min cc (L - j * cc).
+Proof. exact C01Impl.chunk_in_one_chunk_lemma. Qed.
+
+(* about the checker alone: an observation of a chunked case that the checker accepts shows every
+   accessor the implementor answered with inside one chunk *)
+Theorem C01impl_chunk_checker_sound : forall ci o ob, C01impl.ci_k ci = C01impl.IK_CHUNK ->
+  C01impl.impl_step_ok ci o ob = true -> o_class ob = 0 ->
+  exists rk j, result_kind KRegion (s_rq o) = Some rk /\
+    j * (C01impl.ci_c ci + C01impl.ci_g ci) <= o_off ob /\
+    o_off ob + obs_reach rk o ob <=
+      j * (C01impl.ci_c ci + C01impl.ci_g ci) +
+      N.min (C01impl.ci_c ci) (c_len (C01impl.ci_case ci) - j * C01impl.ci_c ci).
+Proof. exact C01Impl.chunk_checker_sound_lemma. Qed.
+
+(* the model of the provided methods over the four stand-in implementors of the harness (count
+   clamped / rest of the memory / one byte short / chunked) satisfies the checker on every case *)
 Theorem C01impl_model_ok : forall ci, C01impl.wf_caseimpl ci ->
   C01impl.ok_C01impl ci (C01impl.run_C01impl ci) = true.
 Proof. exact C01Impl.C01impl_model_ok_lemma. Qed.
@@ -237,7 +259,17 @@ Example C01impl_nonvacuous :
     = Val (Ok (AAtomic (TR 4100 4 4))).
 Proof. exact C01Impl.impl_clamp_refuses. Qed.
 
+Example C01impl_chunk_nonvacuous :
+  derive_vm Release (C01impl.chunk_gs 4096 24 12 4) 24 (DGetAtomicRef {| e_size := 8; e_align := 8 |} 8) = Panic 264 /\
+  derive_vm Release (C01impl.chunk_gs 4096 24 12 4) 24 (DGetAtomicRef {| e_size := 8; e_align := 8 |} 0)
+    = Val (Ok (AAtomic (TR 4096 8 8))) /\
+  derive_vm Release (C01impl.chunk_gs 4096 24 12 4) 24 (DGetRef {| e_size := 8; e_align := 8 |} 12)
+    = Val (Ok (ARef (VR 4112 8))).
+Proof. exact C01Impl.impl_chunk_refuses. Qed.
+
 Print Assumptions C01_any_implementor_shape.
+Print Assumptions C01_chunked_implementor_in_chunk.
+Print Assumptions C01impl_chunk_checker_sound.
 Print Assumptions C01_any_implementor_contained.
 Print Assumptions C01_any_implementor_exact.
 Print Assumptions C01impl_model_ok.
